@@ -32,9 +32,9 @@ type C05Seg struct {
 }
 
 type C05Fault struct {
-	AtMs int    `json:"at_ms"`
-	Kind string `json:"kind"` // cut-ar | cut-rb | heal | restart-relay
-	ForMs int   `json:"for_ms"`
+	AtMs  int    `json:"at_ms"`
+	Kind  string `json:"kind"` // cut-ar | cut-rb | heal | restart-relay
+	ForMs int    `json:"for_ms"`
 }
 
 type C05Scn struct {
@@ -157,13 +157,13 @@ func shellScript(s C05Scn) string {
 }
 
 type c05Result struct {
-	req      C05Req
-	offset   int64
-	first    string
-	data     []byte
-	eof      bool
-	err      error
-	took     time.Duration
+	req    C05Req
+	offset int64
+	first  string
+	data   []byte
+	eof    bool
+	err    error
+	took   time.Duration
 }
 
 func fetchResults(network, addr, id string, p int64, asJSON bool, deadline time.Duration) c05Result {
